@@ -27,6 +27,9 @@ CLAIMED = {
  "C07": ("proptest: templates (identity, wrapping, random token mixes) over real captures at generated site indentations vs. O-template, an independent reference of the template language and the indentation arithmetic (reference model + identity round-trip)",
          "Randomised exploration: 2x10^4 (quick) to 5x10^5 (thorough) (template, capture, site) cases in all languages; replacement must equal the reference byte for byte when captures are well indented, verbatim modulo leading spaces otherwise; rewriting a node to its own pattern must be a no-op.",
          "Trusted: bindings come from the construction of the pattern (C02 decides that the implementation binds the same spans); spaces-only indentation, lines within the 512-byte look-behind.", "DESIGN.md §5 C07"),
+ "C08": ("proptest: generated (fixable rule, text) pairs through CLI JSON (reference), sg test -U snapshots, the library replace calls and LSP quick-fix / fix-all actions (differential across front ends)",
+         "Randomised exploration through the real binaries and the library: 300 (quick) to 4x10^3 (thorough) cases over 9 fix shapes (expansions, trimmed punctuation, transformed variables, multi-line, object form); each front end's edit (byte range + text) must equal the one `sg scan --json` announces.",
+         "Trusted: the JSON output as reference (C16/C06 check it); harness LSP client; scan -U is compared by C18.", "DESIGN.md §5 C08"),
  "C09": ("proptest: generated projects and LSP notification histories (model-based: URI -> highest version/text) through the real CLI, test runner and language server; oracle = equality of normalised finding multisets across front ends + history invariant on the last publication",
          "Randomised exploration through the real binaries: 120 (quick) to 2x10^3 (thorough) projects, each compared across 7 front ends (3 JSON styles, stdin, GitHub format, sg test verdicts both ways, LSP didOpen) plus an LSP history of up to 17 notifications (sequential and burst delivery) checked against the model's highest version.",
          "Trusted: the JSON stream output as the reference multiset (C16 checks it against the bytes); harness-side LSP client; burst delivery explores, but does not enumerate, handler interleavings.", "DESIGN.md §5 C09"),
